@@ -61,6 +61,13 @@ CLAIMED = {
             'soundness re-checked; exhaustive call shapes on the real classes compared in Coq.',
             'Trusted: Coq kernel; fwd2coq translator (validated against inspect.signature each run); bind_call model of Python argument '
             'binding (validated against CPython each run).', 'DESIGN.md section 5, 6 C17'),
+    'C14': ('direct comparison, inside Coq, of the traces of the threaded and the asyncio member of each pair on the same scenario + '
+            'Coq theorems that the comparison is an equivalence and that parity follows from correspondence of both members with one model',
+            'The Coq content is thin by nature (parity relates two programs): theorems C14_checker_decides / equivalence / '
+            'C14_parity_by_model; the deciding evidence is the direct comparison of both members on every scenario plus the fact that every '
+            'pair is compared with one shared deterministic model in the property that owns its driver.',
+            'Trusted: Coq kernel + vm_compute; drivers of the owning properties; handlers inline (async_handlers disabled).',
+            'DESIGN.md section 6 C14'),
     'C15': ('Coq theorems about a hand model of the pub/sub listener loop and Redis retry loops + differential correspondence with '
             'PubSubManager / AsyncPubSubManager + Coq-checked checkers on implementation traces',
             'Proof about the model Listener/Listener.v (totality and compositionality of the loop for all message lists and fault scripts, '
@@ -80,7 +87,7 @@ CLAIMED = {
             'fake Client class.', 'DESIGN.md section 6 C19'),
 }
 
-READY = {'C01', 'C03', 'C04', 'C05', 'C06', 'C11', 'C12', 'C13', 'C16', 'C17'}
+READY = {'C01', 'C03', 'C04', 'C05', 'C06', 'C10', 'C11', 'C12', 'C13', 'C14', 'C16', 'C17'}
 NOT_YET = 'check not built yet in this round; planned as described in DESIGN.md section 6'
 
 
